@@ -1,7 +1,7 @@
 (* Exec/DocExec.v — correspondence checkers for the document chunk body (Store/DocChunk.v) and its
    change-metadata columns (Store/DocCols.v).  [infl]: the (deflated, inflated) pairs of the
    compressed columns of this document, supplied by the harness: the model's DEFLATE parameter. *)
-From AM Require Import Base.Prelude Base.Leb128 Gen.Consts Store.Chunk Store.ChangeChunk Store.DocChunk Store.DocCols.
+From AM Require Import Base.Prelude Base.Leb128 Gen.Consts Store.Chunk Store.ChangeChunk Store.DocChunk Hexane.Rle Store.DocCols.
 Local Open Scope N_scope.
 
 Fixpoint lookup_infl (infl : list (bytes * bytes)) (a : bytes) : option bytes :=
@@ -43,6 +43,15 @@ Definition chk_doc (infl : list (bytes * bytes)) (exact : bool) (data : bytes)
   | _ => false
   end.
 
+(* Declared item counts of the streamed change columns (run based: nothing is expanded).  A mutant
+   that declares more than 2^16 items in one of them is outside this checker: the implementation
+   allocates that many items and the model would expand them (resource bounds are C17's subject). *)
+Definition stream_total {V} (dec : bytes -> option (V * bytes)) (b : bytes) : N :=
+  total (fst (stream_of V dec false b)).
+Definition huge_counts (cols : list (N * bytes)) : bool :=
+  existsb (fun s => 65536 <? stream_total i64_dec (col s cols)) [SPEC_SEQ; SPEC_MAX_OP; SPEC_DEPS_VAL]
+  || existsb (fun s => 65536 <? stream_total u64_dec (col s cols)) [SPEC_ACTOR; SPEC_DEPS_COUNT].
+
 (* a mutated document chunk body (checksum recomputed by the harness) given to [Automerge::load]:
    [kind] 0 = loaded (then [actors heads metas] are what the loaded document reports), 1 = error,
    2 = panic.  Only the public loader can be observed, and it runs more checks than the two
@@ -54,6 +63,7 @@ Definition chk_doc_mut (infl : list (bytes * bytes)) (data : bytes) (kind : N)
   (actors heads : list bytes) (metas : list chmeta) : bool :=
   match parse_doc (lookup_infl infl) data with
   | Ok d =>
+    if huge_counts (known_cols (d_ccols d) (d_cdata d)) then true else
     match doc_metas d with
     | Ok ms =>
       if kind =? 0 then
